@@ -34,7 +34,8 @@ func litVal(lit string) Val {
 	case strings.HasPrefix(lit, "'"):
 		return vStr(strings.ReplaceAll(lit[1:len(lit)-1], "''", "'"))
 	case strings.ContainsAny(lit, ".eE"):
-		f, _ := strconv.ParseFloat(lit, 32)
+		// the value the library's own String -> Float conversion gives (C07): the double the text spells, rounded to single
+		f, _ := strconv.ParseFloat(lit, 64)
 		return vFloat(float32(f))
 	}
 	i, err := strconv.ParseInt(lit, 10, 64)
